@@ -1,14 +1,17 @@
 SPECIFICATION Spec
 CONSTANTS
-  G = 3
+  G = 2
   R = 3
-  K = 2
+  K = 1
   E = 3
-  N = 0
+  N = 3
   LInitU = TRUE
-  LInitNN = {}
-  DInit = {3}
+  LInitNN = {0, 1, 2}
+  DInit = {1, 2, 3}
   EmitOn = TRUE
+INVARIANT ClosedForm
+INVARIANT Counts
+INVARIANT Represent
 INVARIANT BestGrain
 INVARIANT Unassigned
 INVARIANT StoredError
